@@ -110,6 +110,10 @@ class WcBase(HookMixin, WorkChain):
             value = rets[k] if k < len(rets) else None
             if isinstance(value, dict) and '__tc__' in value:
                 value = {key: self._awaitable(key, spec, 'ret') for key, spec in value['__tc__'].items()}
+            elif isinstance(value, dict) and '__mapping__' in value:
+                import types
+
+                value = types.MappingProxyType(dict(value['__mapping__']))  # a result that is a mapping, but not a dict
             elif isinstance(value, dict) and '__raise__' in value:
                 from .programs import ProgError
 
@@ -158,6 +162,15 @@ def _summ_ctx(ctx):
 def _compile(cls, ins):
     kind = ins[0]
     if kind == 'step':
+        if cls.BEHAVIOUR.get('module_steps'):
+            # outline elements that are plain functions and not what their name resolves to on the class (factory-made
+            # steps sharing one __name__, helpers defined at module level)
+            name = ins[1]
+
+            def step(self):
+                return self._run_step(name)
+
+            return step
         return getattr(cls, 'st_' + ins[1])
     if kind == 'return':
         return return_ if len(ins) == 1 else return_(ins[1])
